@@ -101,6 +101,21 @@ pub fn collision_games() -> Vec<(String, Tree)> {
             ],
         ),
     ));
+    // three root actions above one shared opponent infoset above one shared chance infoset: the
+    // frontier hands out two opponent nodes, and the chance infoset is first touched (sampled)
+    // inside the concurrent tasks
+    res.push((
+        "shared_chance_below_3".into(),
+        p(
+            0,
+            "root",
+            vec![
+                ("a", p(1, "z", vec![("l", below(1.0)), ("r", below(-2.0))])),
+                ("b", p(1, "z", vec![("l", below(0.5)), ("r", below(3.0))])),
+                ("c", p(1, "z", vec![("l", below(-1.5)), ("r", below(0.25))])),
+            ],
+        ),
+    ));
     res.push(("matching_pennies".into(), crate::universe::matching_pennies()));
     res.push(("binary_depth_3".into(), kary_alternating(2, 3)));
     res
@@ -158,13 +173,22 @@ fn layer_decomposition(ctx: &Ctx, totals: &mut LoomTotals) {
             games.push((format!("kary_{}_{}", k, d), kary_alternating(k, d)));
         }
     }
+    // one level deeper with binary branching: the smallest trees in which a node below TWO
+    // expanded nodes (e.g. two chance nodes) can itself be handed out as a task; vanilla, budgets
+    // {1, 2} only (marked by the name prefix)
+    if !ctx.thorough() {
+        let deeper = Bounds { max_internal: 4, max_arity: 2, max_leaves: 5, chance_infosets: false, degenerate: false };
+        let skels4 = skeletons(&deeper);
+        ctx.set("layer1_deeper_binary_skeletons", json!(skels4.len()));
+        games.extend(skels4.iter().enumerate().filter(|(_, s)| s.num_internal() == 4 && super::has_decision(s)).map(|(i, s)| (format!("deep{}", i), fill_distinct(s, i))));
+    }
     let budgets: &[u64] = if ctx.thorough() { &[1, 2, 3, 4, 5, 8] } else { &[1, 2, 3, 4, 8] };
     let targets: Vec<usize> = (1..=12).collect();
     let specs = specs(ctx);
     ctx.set("layer1_decomposition", json!({"games": games.len(), "budgets": budgets, "task_targets": "1..=12", "presets": specs.iter().map(|s| s.to_json()).collect::<Vec<_>>(), "thresholds": "0, and (on every 7th game and the families) up to two values strictly between consecutive bounds of the 4-iteration run"}));
     let lb = LoomBounds { pb3: None, pb4: None, max_permutations: 1, max_seconds: 60 };
     let shared = std::sync::Mutex::new(LoomTotals::default());
-    par_for_each(&games, 16, |gi, (_, tree)| {
+    par_for_each(&games, 16, |gi, (name, tree)| {
         if ctx.stopped() {
             return;
         }
@@ -178,9 +202,10 @@ fn layer_decomposition(ctx: &Ctx, totals: &mut LoomTotals) {
             Err(_) => return,
         };
         let big = tree.num_internal() > 40;
-        for spec in &specs {
+        let deep = name.starts_with("deep");
+        for (si, spec) in specs.iter().enumerate() {
             for &iters in budgets {
-                if big && iters > 4 {
+                if (big && iters > 4) || (deep && (si > 0 || iters > 2)) {
                     continue;
                 }
                 let mut regs = vec![0.0];
